@@ -18,6 +18,12 @@ CHECKS = {
  "C20": ("panic/abort monitor + per-command pixel work budget (cfg hook ticks) + virtual blocking monitor (hook before the sleep) + picture-size assertion after every command, enumerated command tables and seeded streams for RIPscrip and IGS",
          "Every RIP level-0/1/9 command x parameter length 0..=24 x {0,1,Z} and every string over {0,1,Z} up to length 6, every IGS command x 0..=12 parameters x 7 value classes are enumerated; random mixed / truncated / over-long streams with state prefixes, loops and chains are sampled. Each command may spend at most 16x the canvas size in pixel operations; get_picture_data() must return width*height*4 bytes after every command; any sleep request raises.",
          "RIP file commands run against an empty scratch directory. Known unimplemented feature (button label orientations, todo!()) is listed in known_findings.json.", "DESIGN.md §4 C20"),
+ "C10": ("raw-bits runtime monitor over every stored char / String after each case (volatile u32 reads, str::from_utf8), debug-assertion UB precondition aborts observed via worker-death attribution, and the Miri interpreter on the unchecked-conversion sites (thorough)",
+         "Every value of the quantifier's finite parts is executed on the real code: DECFRA fill character 0..=0x110010 (thorough: every value, quick: every 16th plus all surrogates and boundaries and 2^k+-1), all 65536 clipboard cell values, IcyDraw long-form cells with all 2048 surrogates / boundaries / random u32 in first and continuation chunks, invalid-UTF-8 titles and font names, glyph counts up to 2^17, all 256x256 hex-macro pairs. After each case every char the engine stores or returns is range-checked from its raw bits. Thorough also runs 6 Miri workloads (fill, hexmacro, clipboard, font, xbin transmute, icy) which report invalid-value construction even if the value is never read.",
+         "The raw-bits monitor only sees values that are still stored after the call; transient invalid values are seen by the debug-assertion precondition checks and by Miri on the listed scenarios only.", "DESIGN.md §4 C10"),
+ "C14": ("recorded event log of harness-controlled decode completions (gate hook) checked offline against a sequential model; direct assertions on decoder output; Miri data-race/UB detection with 16 scheduler seeds (thorough)",
+         "Schedules: for k<=4 images in flight all k! completion orders x all 2^k poll placements x 12 geometry classes (5304 schedules) are executed with real threads held in the gate; every poll runs under a 20 s no-block limit; the log of what is on screen after each step is checked against 'fold arrivals in order over the longest finished prefix'. Payloads: seeded sixel payloads (20k quick / 2M thorough) must decode to width*height*4 bytes consistent with a declared raster.",
+         "Decode durations are not enumerated (order and poll placement determine the shared state). Images are identified by colour/position/size.", "DESIGN.md §4 C14"),
  "C18": ("exhaustive enumeration of the codec domains against round-trip oracles (runtime assertion monitor)",
          "Complete enumeration of the finite domain stated in the property (256 bytes x 3 modes, all expressible attribute tuples, 256 CP437 + 128 ATASCII codes, 63 typed characters x 5 converters), each executed on the real codecs under the panic monitor; exhaustive, so the verdict covers every input of the quantifier.",
          "Trusts the harness's definition of 'expressible in a mode' (image of from_u8) and of the displayed foreground (bold folding).", "DESIGN.md §4 C18"),
